@@ -16,10 +16,10 @@
   * `C13_fan_test_iff`, `C13_fan_first_side_weak_witness` — exactly what the star test guarantees on its first
       examined side: nothing about its magnitude; a degenerate first triangle is accepted (witness).
 
-  NOT PROVED: that the triangles of EAR CLIPPING carry the coordinates of `earclipTriangles` when read through the
-  vertex identifiers of the result (the oracle of c13.py checks it on every case).  For the two fan kernels this tie
-  is proved in Props/C13d.lean (`C13_fan_triangles_carry_list_coordinates`) with the value calculus of
-  Lemmas/PosCalc.lean.
+  CONTINUED: that the triangles carry the coordinates of the vertex-list triangles when read through the vertex
+  identifiers of the result is proved in Props/C13d.lean for the two fan kernels
+  (`C13_fan_triangles_carry_list_coordinates`) and in Props/C13e.lean for ear clipping
+  (`C13_earclip_triangles_carry_list_coordinates`), with the value calculus of Lemmas/PosCalc.lean.
 -/
 import Honeycomb.Props.C13b
 import Honeycomb.Props.C14b
